@@ -63,3 +63,10 @@ Theorem C19_constructor_no_panic :
   is_panic (new_from_nodes_and_edges teqb tltb ns es s) = false /\
   is_fuel (new_from_nodes_and_edges teqb tltb ns es s) = false.
 Proof. exact (@new_from_no_panic). Qed.
+
+(* Ok g: the private indexes of g are coherent — every name index is in range, the adjacency vectors
+   have one row per node, every stored pair has its adjacency entries (the part of graph validity that
+   the later algorithms' index reads rely on) *)
+Theorem C19_ok_indexes : forall (parse : bytes -> option weight) (evs : list event) (s : specs) (g : ggraph),
+  read_events parse evs s = Ok g -> NP bytes_eqb g.
+Proof. exact read_events_ok_indexes. Qed.
